@@ -236,6 +236,14 @@ impl SvgElement {
 //@ - r is Ok ==> !final(self).attrs@.dom().contains("surround"@) && !final(self).attrs@.dom().contains("inside"@) && !final(self).attrs@.dom().contains("margin"@)     @@C12.attrs.removed
 //@ - r is Ok && old(self).attrs@.dom().contains("inside"@) ==> inter_spec(boxes_of(*ctx, old(self).attrs@["inside"@], false, old(self).name@)->Some_0) is Some     @@C12.inside.empty_intersection_is_error
 //@ - r is Ok && old(self).attrs@.dom().contains("surround"@) ==> union_spec(boxes_of(*ctx, old(self).attrs@["surround"@], true, old(self).name@)->Some_0) is Some     @@C12.surround.nothing_to_enclose_is_error
+//@ - r is Ok && old(self).attrs@.dom().contains("inside"@) ==> ({
+//@       let i = inter_spec(boxes_of(*ctx, old(self).attrs@["inside"@], false, old(self).name@)->Some_0)->Some_0;
+//@       let b = if old(self).attrs@.dom().contains("margin"@) { shrunk(i, trbl_parse(old(self).attrs@["margin"@])->Some_0) } else { i };
+//@       val(b.x2) >= val(b.x1) && val(b.y2) >= val(b.y1) })     @@C12.margin.leaves_an_area
+//@ - r is Ok && old(self).attrs@.dom().contains("surround"@) ==> ({
+//@       let u = union_spec(boxes_of(*ctx, old(self).attrs@["surround"@], true, old(self).name@)->Some_0)->Some_0;
+//@       let b = if old(self).attrs@.dom().contains("margin"@) { expanded(u, trbl_parse(old(self).attrs@["margin"@])->Some_0) } else { u };
+//@       val(b.x2) >= val(b.x1) && val(b.y2) >= val(b.y1) })     @@C12.margin.leaves_an_area
 //@ - r is Ok && old(self).attrs@.dom().contains("surround"@) && (old(self).name@ == "rect"@ || old(self).name@ == "box"@) ==> ({
 //@       let bs = boxes_of(*ctx, old(self).attrs@["surround"@], true, old(self).name@)->Some_0;
 //@       let u = union_spec(bs);
